@@ -475,6 +475,7 @@ pub fn iterator_part(run: &Run) {
             for_type!(st, n, steps(run, st, n));
         }
     }
+    super::iter::run_sections(run, "C08", if run.thorough() { 10 } else { 9 });
 }
 
 pub fn replay(case: &Case) -> Result<Verdict, String> {
@@ -526,6 +527,7 @@ pub fn replay(case: &Case) -> Result<Verdict, String> {
                 None => Ok(()),
             })
         }
+        "iterscript" => super::iter::replay("C08", case),
         k => Err(format!("unknown kind {}", k)),
     }
 }
